@@ -358,11 +358,14 @@ def world_to_coq(wres, off, fr):
 
     def add_narrow(snap):
         nonlocal unstable
-        ent = snap["entries"]
-        for a, ea in enumerate(ent):
-            for b, eb in enumerate(ent):
+        objs = snap["narrow_objs"]
+        for a, (oa, sa) in enumerate(objs):
+            for b, (ob, sb) in enumerate(objs):
                 v = snap["narrow"][a][b]
-                key = ((off + ea["oid"], ea["stamp_actual"]), (off + eb["oid"], eb["stamp_actual"]))
+                if oa < 0 or ob < 0:
+                    unstable = True
+                    continue
+                key = ((off + oa, sa), (off + ob, sb))
                 if not isinstance(v, bool) or snap["narrow_fresh"][a][b] != v or nt.get(key, v) != v:
                     unstable = True
                     continue
@@ -579,7 +582,7 @@ def judge_world(wcase, wres, stats):
             stats["self"] += 1
             stats["self_nonempty"] += bool(want)
         elif op in ("detect", "detect_any"):
-            N = snap["narrow"]
+            N = [row[:len(ent)] for row in snap["narrow"][:len(ent)]]
             if any(not isinstance(v, bool) for row in N for v in row):
                 stats["narrow_raised"] += 1
                 continue
@@ -651,12 +654,13 @@ def judge_case(case, res, stats):
 
 # ---------------------------------------------------------------- main
 _CONFIRMED = [0]
+CASE_LIMIT_S = 150      # wall-clock allowance per case inside a worker (a case normally takes < 1 s)
 
 
 def run_impl_cases(cases, tag):
     nw = min(cm.NCPU, max(1, len(cases) // 6))
     chunks = [cases[i::nw] for i in range(nw)]
-    res = cm.run_impl_parallel(PID, "c06", [dict(cases=c) for c in chunks], timeout=1200, tag=tag)
+    res = cm.run_impl_parallel(PID, "c06", [dict(cases=c, case_limit_s=CASE_LIMIT_S) for c in chunks], timeout=1200, tag=tag)
     out = [None] * len(cases)
     for wk, (rr, ch) in enumerate(zip(res, chunks)):
         idxs = list(range(wk, len(cases), nw))
@@ -679,6 +683,18 @@ def run_impl_cases(cases, tag):
                     out[i] = s["result"]["results"][0]
                 else:
                     out[i] = dict(harness_exc=f"PROCESS-{s['status'].upper()}", harness_msg=f"rc={s.get('rc')} {s.get('log', '')[-300:]}")
+    # cases that ran into the in-worker allowance: believed only after a run ALONE without that allowance
+    for i, x in enumerate(out):
+        if isinstance(x, dict) and x.get("harness_exc") == "CASE-TIMEOUT":
+            if _CONFIRMED[0] >= 3:
+                out[i] = dict(harness_exc="PROCESS-UNCONFIRMED-TIMEOUT", harness_msg="not re-run (3 hangs already confirmed)")
+                continue
+            _CONFIRMED[0] += 1
+            s1 = cm.run_impl(PID, "c06", dict(cases=[cases[i]]), timeout=900, tag=tag + "_alone")
+            if s1["status"] == "ok":
+                out[i] = s1["result"]["results"][0]
+            else:
+                out[i] = dict(harness_exc=f"PROCESS-{s1['status'].upper()}", harness_msg=f"rc={s1.get('rc')} {s1.get('log', '')[-300:]}")
     return out
 
 
